@@ -224,3 +224,4 @@ pub mod collections {
         }
     }
 }
+
